@@ -174,7 +174,7 @@ def acquisition_points(rep, tier):
     _, _, EI, UCB, MV = impl()
     r = C.rng_for(PROP, "acq")
     recs, goals = [], []
-    n_gp = 1 if tier == "quick" else 6
+    n_gp = 1 if tier == "quick" else 3
     zi = 0
     for d in (1, 2, 3):
         for g in range(n_gp):
